@@ -3,6 +3,9 @@ use super::bld::*;
 use super::c05::{binit, ASSUMPTIONS};
 use crate::fw::*;
 use crate::scen::Focus;
+use cardano_serialization_lib as csl;
+use csl::*;
+use serde_json::json;
 use vkit::rng::Rng;
 
 pub fn def() -> PropDef {
@@ -20,9 +23,100 @@ fn streams() -> Vec<Stream> {
     vec![
         Stream { name: "scenarios", count: (25_000, 1_000_000), exhaustive: false, run: |c, r, _| scenario(c, r, Focus::default(), c18_monitor) },
         Stream { name: "scenarios-overlap", count: (25_000, 800_000), exhaustive: false, run: ov },
+        Stream { name: "many-signers", count: (220, 4_000), exhaustive: false, run: many_signers },
     ]
 }
 fn ov(c: &mut Ctx, r: &mut Rng, _i: u64) {
     let f = Focus { overlap: 13, scripts: 8, plutus: 7, certs: 10, withdrawals: 9, votes: 7, byron: 6, refs: 7, ..Focus::default() };
     scenario(c, r, f, c18_monitor)
+}
+
+/// The number of key witnesses at the CBOR width boundaries of a COUNT (23/24, 255/256) and beyond: n key inputs
+/// of n distinct keys, one output, change; `full_size()` against the length of the transaction carrying exactly n
+/// key witnesses (the length of a witness does not depend on its content)
+fn many_signers(ctx: &mut Ctx, r: &mut Rng, i: u64) {
+    const NS: [u64; 11] = [22, 23, 24, 25, 26, 254, 255, 256, 257, 258, 300];
+    let n = NS[(i % NS.len() as u64) as usize];
+    ctx.eval();
+    let cfg = match guard(|| {
+        TransactionBuilderConfigBuilder::new()
+            .fee_algo(&LinearFee::new(&BigNum::from(44u64), &BigNum::from(155_381u64)))
+            .pool_deposit(&BigNum::from(500_000_000u64))
+            .key_deposit(&BigNum::from(2_000_000u64))
+            .max_value_size(5000)
+            .max_tx_size(200_000)
+            .coins_per_utxo_byte(&BigNum::from(4310u64))
+            .build()
+    }) {
+        Ok(Ok(c)) => c,
+        _ => return,
+    };
+    let seed = r.u64();
+    let kh = |j: u64| -> Vec<u8> {
+        let mut b = vec![0u8; 28];
+        b[..8].copy_from_slice(&vkit::rng::fnv64(&(seed ^ j.wrapping_mul(0x9e37_79b9)).to_le_bytes()).to_be_bytes());
+        b[8..16].copy_from_slice(&j.to_be_bytes());
+        b
+    };
+    let res = guard(|| -> Result<(usize, Vec<u8>), String> {
+        let mut tb = TransactionBuilder::new(&cfg);
+        for j in 0..n {
+            let mut id = vec![0u8; 32];
+            id[..8].copy_from_slice(&(seed.wrapping_add(j)).to_be_bytes());
+            let input = TransactionInput::new(&TransactionHash::from_bytes(id).map_err(|e| format!("{:?}", e))?, (j % 7) as u32);
+            let h = Ed25519KeyHash::from_bytes(kh(j)).map_err(|e| format!("{:?}", e))?;
+            tb.add_key_input(&h, &input, &Value::new(&BigNum::from(2_000_000u64 + j)));
+        }
+        let pay = EnterpriseAddress::new(1, &Credential::from_keyhash(&Ed25519KeyHash::from_bytes(kh(100_000)).map_err(|e| format!("{:?}", e))?)).to_address();
+        tb.add_output(&TransactionOutput::new(&pay, &Value::new(&BigNum::from(1_500_000u64)))).map_err(|e| format!("{:?}", e))?;
+        let chg = EnterpriseAddress::new(1, &Credential::from_keyhash(&Ed25519KeyHash::from_bytes(kh(100_001)).map_err(|e| format!("{:?}", e))?)).to_address();
+        tb.add_change_if_needed(&chg).map_err(|e| format!("{:?}", e))?;
+        let predicted = tb.full_size().map_err(|e| format!("{:?}", e))?;
+        let tx = tb.build_tx().map_err(|e| format!("{:?}", e))?;
+        let mut ws = tx.witness_set();
+        let mut vks = Vkeywitnesses::new();
+        for j in 0..n {
+            let mut pk = vec![0u8; 32];
+            pk[..8].copy_from_slice(&j.to_be_bytes());
+            pk[8] = 0x5a;
+            let vkey = Vkey::new(&PublicKey::from_bytes(&pk).map_err(|e| format!("{:?}", e))?);
+            let sig = Ed25519Signature::from_bytes(vec![(j % 251) as u8; 64]).map_err(|e| format!("{:?}", e))?;
+            vks.add(&Vkeywitness::new(&vkey, &sig));
+        }
+        if vks.len() as u64 != n {
+            return Err("own witness set lost a witness".into());
+        }
+        ws.set_vkeys(&vks);
+        let signed = Transaction::new(&tx.body(), &ws, tx.auxiliary_data());
+        Ok((predicted, signed.to_bytes()))
+    });
+    let (predicted, signed) = match res {
+        Ok(Ok(x)) => x,
+        Ok(Err(e)) => {
+            ctx.bucket("many-signers.not-built");
+            ctx.sample("many-signers.not-built", || json!({"n": n, "error": e}));
+            return;
+        }
+        Err(p) => {
+            ctx.panic_seen(&p);
+            return;
+        }
+    };
+    let len = match vkit::cbor::parse(&signed) {
+        Ok(it) => it.end - it.start,
+        Err(_) => {
+            ctx.violation("many-signers/signed-transaction-not-well-formed", json!({"n": n}));
+            return;
+        }
+    };
+    ctx.nontrivial_bytes("many", &signed[..signed.len().min(4096)]);
+    ctx.bucket(&format!("many-signers.n-{}", n));
+    let det = || json!({"signers": n, "full_size": predicted, "signed_length": len, "seed": seed.to_string()});
+    if predicted < len {
+        ctx.violation("full_size/smaller-than-signed-transaction/many-signers", det());
+    } else if predicted - len >= 100 {
+        ctx.violation("full_size/exceeds-signed-transaction-by-a-witness-or-more/many-signers", det());
+    } else {
+        ctx.bucket("c18.many-signers.size-ok");
+    }
 }
